@@ -43,6 +43,10 @@ def run(ctx: Ctx):
     ctx.guard(r)
   from mlmverif.props import c09
   from mlmverif.props import c13, c16
+  ctx.include('R-C03-16', '"as a chain of named stages ... the same aggregate results": the chain hands every stage the BATCHES of the'
+              ' stage before it whether or not the caller wants batch outputs back — the caller\'s with_result flag is not passed'
+              ' to the per-stage iterators (R-C16-17): an aggregate-only run of a chain would otherwise feed None into every'
+              ' downstream stage while the single fused stage is unaffected', c16.r17, min_instances=1)
   ctx.include('R-C03-9', '"with any number of worker threads ... as a chain of named'
               ' stages": threads that share one upstream iterator (the previous'
               ' stage) pull from it under a lock, whatever kind of iterator it is'
@@ -622,6 +626,8 @@ from mlmverif.selfcheck import B, OK  # noqa: E402
 
 _T = 'chainables/transform.py'
 VARIANTS = [
+    B('chain-forwards-with-result-to-stages', 'chainables/transform.py',
+      "      iterator = r.iterate(\n          iterator,\n          with_agg_state=with_agg_state,", "      iterator = r.iterate(\n          iterator,\n          with_result=with_result,\n          with_agg_state=with_agg_state,", 'R-C03-16'),
     B('iterate-fn-input-tested-by-truth', 'utils/iter_utils.py',
       '  return iter_fn(inputs) if inputs is not None else iter_fn()', '  return iter_fn(inputs) if inputs else iter_fn()', 'R-C03-15'),
     B('stage-iterator-keeps-foreign-entries', 'chainables/transform.py',
